@@ -376,6 +376,16 @@ def resolverHandUp (reqOpts : Option (List Opt)) (respOpts : Option (List Opt)) 
     | some _, some d => some (ro.map (fun o => if o.isEcs then Opt.ecs d else o))
     | _, _ => some ro
 
+/-- forwarder mode (`Forwarder.ServeDNS`): the upstream resolver's response is
+handed up as it came — its own OPT, the scope it declared included. -/
+def forwarderHandUp (respOpts : Option (List Opt)) : Option (List Opt) := respOpts
+
+/-- `config.Load` as far as the `[ecs]` block goes: the values of the operator's
+file reach `Build` exactly as written (no folding of over-long lengths, no
+defaulting) — every out-of-range value still makes `Build` fail closed. -/
+def loadedEcs (enabled : Bool) (f4 f6 m4 m6 : Nat) (nets : List (Option Prefix)) : BuildRes :=
+  build enabled f4 f6 m4 m6 nets
+
 /-- `Resolver.groupLookup`'s singleflight key, as far as this property goes:
 question, CD and the forwarded subnet (family, source netmask, address). -/
 def lookupKey (qid : Nat) (cd : Bool) (reqOpts : List Opt) : Nat × Bool × Option (Nat × Nat × Option (List Nat)) :=
